@@ -107,7 +107,8 @@ _build_state = {}
 
 
 TRANSLATOR_OUTPUTS = {"config2coq.py": "ConfigData.v", "cmake2coq.py": "CMinxCMake.v",
-                      "literals2coq.py": "SourceLiterals.v", "py2coq.py": "PySource.v"}
+                      "literals2coq.py": "SourceLiterals.v", "py2coq.py": "PySource.v",
+                      "grammar2coq.py": "GrammarSource.v"}
 
 
 def translators():
